@@ -1,8 +1,10 @@
 """(T) Translator for arithmetic kernels: Python AST -> Lean 4 definitions, regenerated from /repo on every run, each followed by
 a *tie theorem* `Gen.f … = Model.f …` that Lean re-checks against what the code says now (DESIGN 3.1, 11.1).
 
-Scope (deliberately small): methods / properties whose body is an optional docstring, any number of guards of the form
-`if <test>: raise …` (skipped: they reject inputs, they do not compute) and one `return <expr>`, where <expr> is built from
+Scope (deliberately small): methods / properties whose body is an optional docstring, guards of the form
+`if <test>: raise …` (skipped: they reject inputs, they do not compute), local assignments, the defaulting idiom
+`v = self.a if p is None else p` (v becomes a parameter), `print` calls (ignored), `if / else` over numeric comparisons, and a
+`return <expr>` on every path, where <expr> is built from
 numeric literals, `self.<attr>`, `+ - * /`, unary minus, `abs`, `ceil`, `floor`, `round`, `int(·)` of an integer, `float(·)`.
 Every `self.<attr>` becomes a rational parameter of the generated definition (parameters in alphabetical order).
 
@@ -39,6 +41,9 @@ KERNELS = [
      '4 * dx_bend + 2 * int_length + arm_length', 'unfold dx_mzi; ring'),
     ('dl', 'laserpath.py', 'LaserPath', 'dl', 'C13', ['cmd_rate_max', 'speed'],
      'speed / cmd_rate_max', 'unfold dl; ring'),
+    # the point count of every curved primitive (statement form: defaulting idiom, guard, two assignments, if / else)
+    ('num_subdivisions', 'laserpath.py', 'LaserPath', 'num_subdivisions', 'C13', ['cmd_rate_max', 'f', 'l_curve'],
+     None, None),
 ]
 
 
@@ -57,19 +62,28 @@ def _lit(v) -> str:
     raise Unsupported(f'literal {v!r}')
 
 
-def _expr(e, params: set) -> tuple[str, str]:
+def _expr(e, params: set, env: dict | None = None, fargs: set | None = None) -> tuple[str, str]:
     """-> (lean term, type in {'Rat', 'Int', 'Nat'})"""
+    env = env or {}
+    fargs = fargs or set()
     if isinstance(e, ast.Constant):
         return _lit(e.value), 'Rat'
+    if isinstance(e, ast.Name):
+        if e.id in env:
+            return env[e.id]
+        if e.id in fargs:
+            params.add(e.id)
+            return e.id, 'Rat'
+        raise Unsupported(f'name {e.id}')
     if isinstance(e, ast.Attribute) and isinstance(e.value, ast.Name) and e.value.id == 'self':
         params.add(e.attr)
         return e.attr, 'Rat'
     if isinstance(e, ast.UnaryOp) and isinstance(e.op, ast.USub):
-        t, ty = _expr(e.operand, params)
+        t, ty = _expr(e.operand, params, env, fargs)
         return f'(-{t})', ty
     if isinstance(e, ast.BinOp) and isinstance(e.op, (ast.Add, ast.Sub, ast.Mult, ast.Div)):
-        a, ta = _expr(e.left, params)
-        b, tb = _expr(e.right, params)
+        a, ta = _expr(e.left, params, env, fargs)
+        b, tb = _expr(e.right, params, env, fargs)
         a = a if ta == 'Rat' else f'(({a} : {ta}) : Rat)'
         b = b if tb == 'Rat' else f'(({b} : {tb}) : Rat)'
         op = {ast.Add: '+', ast.Sub: '-', ast.Mult: '*', ast.Div: '/'}[type(e.op)]
@@ -77,7 +91,7 @@ def _expr(e, params: set) -> tuple[str, str]:
     if isinstance(e, ast.Call) and not e.keywords and len(e.args) == 1:
         fn = e.func
         name = fn.id if isinstance(fn, ast.Name) else (f'{fn.value.id}.{fn.attr}' if isinstance(fn, ast.Attribute) and isinstance(fn.value, ast.Name) else None)
-        t, ty = _expr(e.args[0], params)
+        t, ty = _expr(e.args[0], params, env, fargs)
         if name in ('math.ceil', 'np.ceil', 'numpy.ceil'):
             if ty != 'Rat':
                 raise Unsupported('ceil of an integer')
@@ -106,6 +120,68 @@ def _expr(e, params: set) -> tuple[str, str]:
     raise Unsupported(ast.dump(e)[:60])
 
 
+def _stmts(body, params: set, env: dict, fargs: set) -> tuple[str, str]:
+    """Translate a statement list ending in a return on every path -> (lean term, type)."""
+    body = list(body)
+    while body:
+        st = body.pop(0)
+        if isinstance(st, ast.Expr):          # docstring, print(...)
+            continue
+        if isinstance(st, ast.If) and all(isinstance(x, ast.Raise) for x in st.body) and not st.orelse:
+            continue                          # a guard that rejects inputs
+        if isinstance(st, ast.Assign) and len(st.targets) == 1 and isinstance(st.targets[0], ast.Name):
+            name, val = st.targets[0].id, st.value
+            # defaulting idiom `v = self.a if p is None else p`: v is whatever the caller / the attribute supplies -> a parameter
+            if isinstance(val, ast.IfExp) and isinstance(val.test, ast.Compare) and len(val.test.ops) == 1 and \
+                    isinstance(val.test.ops[0], ast.Is) and isinstance(val.test.comparators[0], ast.Constant) and \
+                    val.test.comparators[0].value is None and isinstance(val.test.left, ast.Name) and val.test.left.id in fargs:
+                params.add(name)
+                env[name] = (name, 'Rat')
+                continue
+            env[name] = _expr(val, params, env, fargs)
+            continue
+        if isinstance(st, ast.Return) and st.value is not None:
+            return _expr(st.value, params, env, fargs)
+        if isinstance(st, ast.If):
+            c = _cond(st.test, params, env, fargs)
+            a, ta = _stmts(st.body, params, env, fargs)
+            b, tb = _stmts(list(st.orelse) + body, params, env, fargs)
+            import re as _re
+            if ta != tb:
+                # an integer literal in one branch takes the integer type of the other
+                ma, mb = _re.fullmatch(r'\((-?\d+) : Rat\)', a), _re.fullmatch(r'\((-?\d+) : Rat\)', b)
+                if ta == 'Rat' and ma and tb in ('Int', 'Nat'):
+                    a, ta = f'({ma.group(1)} : {tb})', tb
+                elif tb == 'Rat' and mb and ta in ('Int', 'Nat'):
+                    b, tb = f'({mb.group(1)} : {ta})', ta
+            if ta != tb:
+                if {ta, tb} == {'Int', 'Rat'} or {ta, tb} == {'Nat', 'Rat'}:
+                    raise Unsupported('branches of different numeric type')
+                a, b = (a if ta == 'Int' else f'(({a} : {ta}) : Int)'), (b if tb == 'Int' else f'(({b} : {tb}) : Int)')
+                ta = 'Int'
+            return f'(if {c} then {a} else {b})', ta
+        raise Unsupported(f'statement {type(st).__name__}')
+    raise Unsupported('no return on some path')
+
+
+def _cond(t, params, env, fargs) -> str:
+    if isinstance(t, ast.Compare) and len(t.ops) == 1:
+        a, ta = _expr(t.left, params, env, fargs)
+        b, tb = _expr(t.comparators[0], params, env, fargs)
+        if ta != tb:
+            if ta == 'Rat' and isinstance(t.left, ast.Constant):
+                a = f'({t.left.value} : {tb})'
+            elif tb == 'Rat' and isinstance(t.comparators[0], ast.Constant):
+                b = f'({t.comparators[0].value} : {ta})'
+            else:
+                raise Unsupported('comparison of different numeric types')
+        op = {ast.LtE: '≤', ast.Lt: '<', ast.GtE: '≥', ast.Gt: '>', ast.Eq: '='}.get(type(t.ops[0]))
+        if op is None:
+            raise Unsupported('comparison operator')
+        return f'{a} {op} {b}'
+    raise Unsupported('condition')
+
+
 def translate(src: str, cls: str, func: str) -> tuple[str, list[str], str]:
     """-> (lean body, parameters, result type)"""
     tree = ast.parse(src)
@@ -113,15 +189,9 @@ def translate(src: str, cls: str, func: str) -> tuple[str, list[str], str]:
         if isinstance(node, ast.ClassDef) and node.name == cls:
             for f in node.body:
                 if isinstance(f, ast.FunctionDef) and f.name == func:
-                    body = list(f.body)
-                    if body and isinstance(body[0], ast.Expr) and isinstance(body[0].value, ast.Constant) and isinstance(body[0].value.value, str):
-                        body = body[1:]
-                    while body and isinstance(body[0], ast.If) and all(isinstance(s, ast.Raise) for s in body[0].body) and not body[0].orelse:
-                        body = body[1:]
-                    if len(body) != 1 or not isinstance(body[0], ast.Return) or body[0].value is None:
-                        raise Unsupported('body is not a single return')
                     params: set = set()
-                    t, ty = _expr(body[0].value, params)
+                    fargs = {a.arg for a in f.args.args if a.arg != 'self'}
+                    t, ty = _stmts(f.body, params, {}, fargs)
                     return t, sorted(params), ty
     raise Unsupported(f'{cls}.{func} not found')
 
@@ -133,6 +203,7 @@ import FemtoVerif.Model.Trench
 import FemtoVerif.Model.TrenchProg
 import FemtoVerif.Model.Waveguide
 import FemtoVerif.Model.Gcode
+import FemtoVerif.Model.Sampling
 import Mathlib.Tactic.Ring
 import Mathlib.Algebra.Order.Field.Rat
 
@@ -159,6 +230,14 @@ def regen(_path_unused: pathlib.Path | None = None) -> dict:
         # elaborate, which is the intended signal
         es = ' '.join(expect)
         cast = '' if ty == 'Rat' else ''
+        if lname == 'num_subdivisions':
+            text = (f'/-- `{cls}.{func}` as written in `{fn}` (`f` is the speed after defaulting) -/\n'
+                    f'def {lname} {sig}: {ty} :=\n  {body}\n\n'
+                    f'theorem {lname}_tie ({es} : Rat) (hf : ¬ f < 1 / 1000000) :\n'
+                    f'    Femto.Smp.numSubdivisions f cmd_rate_max l_curve = .ok ({lname} {es}).toNat := by\n'
+                    f'  unfold {lname} Femto.Smp.numSubdivisions\n  simp only [hf, if_false]\n  split <;> simp_all\n')
+            by_pid.setdefault(pid, []).append(text)
+            continue
         text = (f'/-- `{cls}.{func}` as written in `{fn}` -/\n'
                 f'def {lname} {sig}: {ty} :=\n  {body}\n\n'
                 f'theorem {lname}_tie ({es} : Rat) : {lname} {es} = {model} := by\n  {proof}\n')
